@@ -19,6 +19,8 @@ def canon_elem(e):
             return ("float", "nan")
         return ("float", repr(e))
     t = type(e)
+    if hasattr(e, "_underlying") and hasattr(e, "_dtype"):      # a nested vector: never repr() it
+        return ("vector", e._name, tuple(canon_elem(x) for x in e._underlying))
     if t is tuple or t is list:
         return (t.__name__, tuple(canon_elem(x) for x in e))
     return (t.__name__, repr(e))
